@@ -147,6 +147,16 @@ def applyOp (c : Cfg) (d : D) (op : Array Json) : R D := do
     let val ← optNat (← arg 4)
     let cl ← asBool (← arg 5)
     pure (fire c d (Ev.data p (Req.put x ev val cl)))
+  | "putm" =>
+    let p ← asNat (← arg 1)
+    let qs ← match (← arg 2) with
+      | .arr a => a.toList.mapM fun q => do
+          match q with
+          | .arr #[x, ev, val] => do pure ((← asNat x), (← optBool ev), (← optNat val))
+          | _ => throw "putm: query must be [x, ev, val]"
+      | _ => throw "putm: list of queries expected"
+    let cl ← asBool (← arg 3)
+    pure (fire c d (Ev.data p (Req.putMany qs cl)))
   | "get" => pure (fire c d (Ev.data (← asNat (← arg 1)) (Req.get (← asNat (← arg 2)))))
   | "prepare" => pure (fire c d (Ev.data (← asNat (← arg 1)) (Req.prepare (← asNat (← arg 2)))))
   | "bad_http" => pure (fire c d (Ev.data (← asNat (← arg 1)) Req.badHttp))
@@ -168,6 +178,7 @@ def applyOp (c : Cfg) (d : D) (op : Array Json) : R D := do
     else pure d
   | "app_set" => pure (fire c d (Ev.appSet (← asNat (← arg 1)) (← asNat (← arg 2))))
   | "cb" => pure d   -- static configuration, read by `handle` before the run
+  | "world" => pure d
   | "app_set_thread" => pure (fire c d (Ev.appSetWorker (← asNat (← arg 1)) (← asNat (← arg 2))))
   | "lose" => pure (fire c d (Ev.lose (← asNat (← arg 1))))
   | "stop" =>
@@ -205,12 +216,12 @@ def sortNats (l : List Nat) : List Nat := l.foldr insertSorted []
 
 def jnats (l : List Nat) : Json := Json.arr ((sortNats l).map fun (n : Nat) => Json.num n).toArray
 
-def digest (s : St) : Json :=
+def digest (s : St) (nvals : Nat := 4) : Json :=
   let reg := (List.range NA).filterMap fun a => (s.reg a).map fun p => (toString a, Json.num p)
   let tops := (List.range NC).filterMap fun x => (s.topics x).map fun l => (toString x, jnats l)
   let preps := (List.range NA).filterMap fun a => (s.prepared a).map fun l => (toString a, jnats l)
   Json.mkObj [("reg", Json.mkObj reg), ("topics", Json.mkObj tops), ("prepared", Json.mkObj preps),
-              ("values", Json.arr ((List.range 4).map fun x => jval (s.value x)).toArray)]
+              ("values", Json.arr ((List.range nvals).map fun x => jval (s.value x)).toArray)]
 
 def natList (j : Json) (k : String) : R (List Nat) := do
   match j.getObjVal? k with
@@ -252,13 +263,14 @@ def handle (j : Json) : R Json := do
                    cb := fun x => match cbs.reverse.find? (fun e => e.1 = x) with
                                   | some e => e.2
                                   | none => Callback.none }
+  let nvals := (j.getObjValAs? Nat "nchars").toOption.getD 4
   let mut d : D := { s := init c }
   let mut digs : Array Json := #[]
   for op in ops do
     match op with
     | .arr a =>
       d ← applyOp c d a
-      digs := digs.push (digest d.s)
+      digs := digs.push (digest d.s nvals)
     | _ => throw "op must be an array"
   let logs := (List.range d.s.nobj).map fun p =>
     (toString p, Json.arr ((d.out.toList.filter fun o => outObj o = p).map jout).toArray)
